@@ -453,7 +453,12 @@ int64_t cmi_pool_acquire_inner(struct cmb_resourcepool *rpp,
                 const bool found = cmi_process_remove_holdable(victim, hrp);
                 cmb_assert_debug(found == true);
 
-                /* Schedule a wakeup for it, but do not switch context yet */
+                /*
+                 * Schedule a wakeup for it, but do not switch context yet. Cancel
+                 * whatever else it is waiting for first, so that the preemption
+                 * is the next thing it gets to know about.
+                 */
+                cmi_process_cancel_awaiteds(victim);
                 cmb_process_interrupt(victim, CMB_PROCESS_PREEMPTED, victim->priority);
 
                  /* Split the loot */
